@@ -109,9 +109,11 @@ def _hypernym_paths(
     if include_self:
         paths = [[synset] + path for path in paths] or [[synset]]
     if simulate_root and synset.id != _FAKE_ROOT:
-        root = _core.Synset.empty(
-            id=_FAKE_ROOT, _lexid=synset._lexid, _wordnet=synset._wordnet
-        )
+        # one root for the whole taxonomy: it must not take the lexicon
+        # of the synset, or the roots simulated for synsets of two
+        # lexicons (e.g. a lexicon and its extension) hash differently
+        # and are never found to be shared
+        root = _core.Synset.empty(id=_FAKE_ROOT, _wordnet=synset._wordnet)
         paths = [path + [root] for path in paths] or [[root]]
     return paths
 
